@@ -194,6 +194,9 @@ HAND = [
                          '    g = _Generic((int long signed long)0, long long: 1, default: 0), h = _Generic((long int unsigned)0, unsigned long: 1, default: 0), i = _Generic((signed int long)0, long: 1, default: 0),\n'
                          '    j = sizeof(unsigned short int), k = sizeof(short int), l = sizeof(long int signed), m = sizeof(int short signed), n = _Generic((double long)0, long double: 1, default: 0), o = _Generic((char unsigned)0, unsigned char: 1, default: 0);\n',
      {'a': 1, 'b': 1, 'c': 1, 'd': 1, 'e': 1, 'f': 1, 'g': 1, 'h': 1, 'i': 1, 'j': 2, 'k': 2, 'l': 8, 'm': 2, 'n': 1, 'o': 1}, None),
+    # the comma operator has the type of its LAST operand, however many operands there are
+    ('comma-type', 'char c; int i; long l; double d;\nint a = _Generic((c, i, l, d), double: 1, default: 0), b = sizeof (d, c, i), e = _Generic((d, c), char: 1, default: 0), f = sizeof((c, l, c)), g = sizeof (c, d, l, i, d);\n',
+     {'a': 1, 'b': 4, 'e': 1, 'f': 1, 'g': 8}, None),
     ('decay-qual-bad1', 'struct S { int a[2]; }; const struct S cs; void f(void) { int *p = cs.a; }\n', 'reject', None),
     ('decay-qual-bad2', 'typedef int T[2]; const T ct; void g(int *); void f(void) { g(ct); }\n', 'reject', None),
     ('decay-qual-ok', 'struct S { int a[2]; }; const struct S cs; struct S s; void g(const int *); void f(void) { const int *p = cs.a; int *q = s.a; g(cs.a); g(q); }\nint a = 1;\n', {'a': 1}, None),
